@@ -4,7 +4,7 @@
    gives the bytes), positions are Go int64, and each method converts between
    bytes, runes and UTF-16 units the way the Go code does. *)
 From Coq Require Import ZArith List Bool Lia.
-From Otto Require Import Common.Double C09.Utf C09.Spec.
+From Otto Require Import Common.Corr Common.Double C09.Utf C09.Spec.
 Import ListNotations.
 Open Scope Z_scope.
 
@@ -30,7 +30,8 @@ Definition number_bits (bits : Z) : bool * Z :=
 Definition number (a : arg) : option (bool * Z) := option_map number_bits (to_number a).
 Definition int64_of (a : arg) : option Z := option_map snd (number a).
 
-(* uint32(int64(f)) / uint16(int64(f)) on amd64: out-of-range conversions give MinInt64 *)
+(* toUint32 / toUint16: uintN(int64(math.Mod(f, 2^32))); math.Mod is exact and keeps the sign,
+   so this is the truncated value modulo 2^k *)
 Definition go_uint (k : Z) (a : arg) : option Z :=
   match to_number a with
   | None => None
@@ -38,8 +39,7 @@ Definition go_uint (k : Z) (a : arg) : option Z :=
       match decode bits with
       | DFin neg m e =>
           let t := trunc_mag m e in
-          let v := if neg then - t else t in
-          Some ((if (min64 <=? v) && (v <=? max64) then v else min64) mod 2 ^ k)
+          Some ((if neg then - t else t) mod 2 ^ k)
       | _ => Some 0
       end
   end.
@@ -54,19 +54,8 @@ Definition string_at (s : gostr) (idx : Z) : option Z :=
 (* Go's string(rune) *)
 Definition rune_string (c : Z) : gostr := [if valid_rune c then c else 0xFFFD].
 
-(* what call.This.object().stringValue() finds *)
-Inductive this_obj := TStringObj (s : gostr) | TOtherObj | TPrim | TThrow.
-
 Definition s_global : str :=   (* "[object environment]": undefined this is replaced by the global object *)
   [91;111;98;106;101;99;116;32;101;110;118;105;114;111;110;109;101;110;116;93].
-
-Definition this_object (r : recv) : this_obj :=
-  match r with
-  | RLit u | RStrObj u => TStringObj (dec16 u)
-  | RCallStr _ | RNumR _ | RBoolR _ => TPrim
-  | RObj _ | RUndef => TOtherObj
-  | RNull => TThrow
-  end.
 
 (* checkObjectCoercible(call.This) (absent in substr) then call.This.string() *)
 Definition this_gostring (m : meth) (r : recv) : option gostr :=
@@ -81,17 +70,11 @@ Definition this_gostring (m : meth) (r : recv) : option gostr :=
 Definition arg_gostring (a : arg) : option gostr := option_map dec16 (to_string a).
 
 (* ---------- builtin_string.go ---------- *)
-Definition m_charAt (t : this_obj) (idx : Z) (code : bool) : res :=
-  let miss := if code then VNaN else VStr [] in
-  match t with
-  | TThrow => VErr 6
-  | TPrim => VErr 9                     (* nil *object dereferenced *)
-  | TOtherObj => if idx <? 0 then miss else VErr 9   (* nil stringObjecter: Length() called only when 0 <= idx *)
-  | TStringObj s =>
-      match string_at s idx with
-      | None => miss
-      | Some c => if code then VInt c else VStr (enc16 (rune_string c))
-      end
+(* stringAt(newStringObject(call.This.string()), idx) *)
+Definition m_charAt (s : gostr) (idx : Z) (code : bool) : res :=
+  match string_at s idx with
+  | None => if code then VNaN else VStr []
+  | Some c => if code then VInt c else VStr (enc16 (rune_string c))
   end.
 
 Definition indexRune (v t : list Z) : Z :=
@@ -134,10 +117,10 @@ Definition m_lastIndexOf (s t : gostr) (nargs : nat) (a1 : arg) : option res :=
     | Some (isinf, n) =>
         if isinf then whole else
         let st := if n <? 0 then 0 else n in
-        let e := wrap64 (st + zlen tb) in
+        let st := if zlen v <? st then zlen v else st in      (* clamped to the byte length *)
+        let e := st + zlen tb in
         let e := if zlen v <? e then zlen v else e in
-        if e <? 0 then Some (VErr 9)      (* value[:end] with a negative end *)
-        else Some (VInt (lastIndexRune (firstn (Z.to_nat e) v) tb))
+        Some (VInt (lastIndexRune (firstn (Z.to_nat e) v) tb))
     end
   end.
 
@@ -191,10 +174,8 @@ Definition m_substr (s : gostr) (args : list arg) : option res :=
           if size <=? st then Some (VStr [])
           else if ln <=? 0 then Some (VStr [])
           else
-            let e := wrap64 (st + ln) in
-            if size <=? e then Some (VStr (enc16 (rsub s st size)))
-            else if e <? st then Some (VErr 9)        (* target[start:start+length], the sum wrapped *)
-            else Some (VStr (enc16 (rsub s st e)))
+            if size - st <=? ln then Some (VStr (enc16 (rsub s st size)))
+            else Some (VStr (enc16 (rsub s st (st + ln))))
       end
   end.
 
@@ -266,7 +247,8 @@ Definition parse_int_go (p : str) : option Z :=
   end.
 Definition string_to_array_index (p : str) : Z :=
   match parse_int_go p with
-  | Some i => if i <? 0 then -1 else if 4294967295 <=? i then -1 else i
+  | Some i => if i <? 0 then -1 else if 4294967295 <=? i then -1
+              else if list_eqb Z.eqb (int_text i) p then i else -1     (* strconv.FormatInt(index, 10) != name *)
   | None => -1
   end.
 Definition m_index (s : gostr) (p : str) : res :=
@@ -301,9 +283,9 @@ Definition call_model (m : meth) (r : recv) (args : list arg) : option res :=
   match m with
   | MCharAt | MCharCodeAt =>
       let code := match m with MCharCodeAt => true | _ => false end in
-      match this_object r with
-      | TThrow => Some (VErr 6)
-      | t => option_map (fun i => m_charAt t i code) (int64_of (arg_at args 0))
+      match this_gostring m r with
+      | None => Some (VErr 6)
+      | Some s => option_map (fun i => m_charAt s i code) (int64_of (arg_at args 0))
       end
   | _ =>
     match this_gostring m r with
@@ -341,8 +323,11 @@ Definition call_model (m : meth) (r : recv) (args : list arg) : option res :=
   end.
 
 (* ---------- the order in which builtin_string.go converts its arguments ---------- *)
-(* Same as ES5 except: split returns before converting the separator when the limit is 0, and
-   lastIndexOf returns before converting the position when the receiver is empty. *)
+(* Same as ES5 except: split returns before converting the separator when the limit is 0,
+   lastIndexOf returns before converting the position when the receiver is empty, and
+   charAt / charCodeAt convert the position before ToString(this) ([this_last_model]). *)
+Definition this_last_model (m : meth) : bool :=
+  match m with MCharAt | MCharCodeAt => true | _ => false end.
 Definition plan_model (m : meth) (this : str) (eargs : list earg) : list (nat * conv) :=
   match m with
   | MLastIndexOf =>
